@@ -175,6 +175,27 @@ def rule_p2(ctx, F):
             ctx.ok("P2", "%s:rename-temp-into-place" % name, "fs::rename(temp_path(%s) → %s)" % (targ, dst), sample={"function": name, "site": fn.loc(pt), "from": src, "to": dst})
         else:
             ctx.bad("P2", "%s:rename-temp-into-place" % name, "%s: the rename is not `temp_path(output) → output` (from %s, to %s, temp_path(%s) bound to %s)" % (name, src, dst, targ, tvar))
+        # …and that local is nothing but the temp path: every definition of it is the temp_path call (a second definition,
+        # e.g. the final path itself when no library exists yet, makes the compiler write the published file in place)
+        if tvar:
+            other = []
+            for i in fn.ids_named(tvar):
+                for d in fn.defs(i):
+                    x = strip(d) if isinstance(d, dict) else None
+                    hops = 0
+                    while x is not None and x.get("k") == "ref" and str(x.get("name", "")).startswith("_") and hops < 6:
+                        x = fn.single_def(x["id"])
+                        x = strip(x) if isinstance(x, dict) else None
+                        hops += 1
+                    if isinstance(d, dict) and d.get("k") in ("uninit",):
+                        continue
+                    if not (x is not None and x.get("k") == "call" and "temp_path" in (x.get("fn") or "")):
+                        other.append(show(d)[:80] if isinstance(d, dict) else "an opaque modification")
+            if other:
+                ctx.bad("P2", "%s:temp-local-is-only-the-temp-path" % name, "%s: `%s` (what the compiler writes and the rename publishes) is also defined as %s — the tool can write the final path in place, "
+                        "so a concurrent loader or a crash sees a half-written library" % (name, tvar, "; ".join(other[:3])))
+            else:
+                ctx.ok("P2", "%s:temp-local-is-only-the-temp-path" % name, "`%s` has no definition other than temp_path(%s)" % (tvar, targ))
         s = Search(fn, PublishMonitor(fn, [pt], rem, n_tools), budget=3000000)
         v = s.run((0, False))
         if v is None:
